@@ -813,6 +813,26 @@ def r5_4_who_may_write(ctx, prog, rule="R5.4"):
                 m = re.search(r"::(\w+)(::<.*>)?$", c.callee_path).group(1)
                 calls.setdefault(m, set()).add(b.path.split("::")[-1])
     exp = {"insert": {"send_request"}, "remove": {"transaction_finished", "on_timeout"}, "get_mut": {"on_timeout"}}
+    # transactions.entry(k) stands for the operations then applied to the entry in the same function: occupied.remove ->
+    # remove, occupied.get_mut / into_mut -> get_mut, vacant.insert / or_insert* / occupied.insert -> insert.  A function that
+    # takes an entry and applies nothing recognisable to it keeps the `entry` row (not allowed anywhere).
+    ENTRY_OPS = {"remove": "remove", "remove_entry": "remove", "get_mut": "get_mut", "into_mut": "get_mut", "insert": "insert",
+                 "insert_entry": "insert", "or_insert": "insert", "or_insert_with": "insert", "or_insert_with_key": "insert",
+                 "or_default": "insert", "and_modify": "get_mut"}
+    for fname in sorted(calls.get("entry", ())):
+        ops = set()
+        for b in prog.bodies.values():
+            if b.crate == "stun_agent" and b.path.split("::")[-1] == fname and "::tests" not in b.path:
+                for c in b.calls():
+                    m_ = re.match(r"^std::collections::hash_map::(OccupiedEntry|VacantEntry|Entry)::<.*>::(\w+)(::<.*>)?$", c.full)
+                    if m_ and m_.group(2) in ENTRY_OPS:
+                        ops.add(ENTRY_OPS[m_.group(2)])
+        if ops:
+            calls["entry"].discard(fname)
+            for op in ops:
+                calls.setdefault(op, set()).add(fname)
+    if "entry" in calls and not calls["entry"]:
+        del calls["entry"]
     for m, fns in sorted(calls.items()):
         ctx.ob(rule, "table-method:%s" % m, m in exp and fns <= exp[m],
                "transactions.%s called in %s (allowed: %s)" % (m, sorted(fns), sorted(exp.get(m, []))))
